@@ -450,6 +450,137 @@ def h10e_shards(tier):
     return out
 
 
+# ---------------------------------------------------------------- H10f signature rdatasets: the (type, covers) key
+
+RRSIG = dns.rdatatype.RRSIG
+MX = dns.rdatatype.MX
+SIGTXT = "%s 8 2 300 20300101000000 20200101000000 %d example. AQID"
+ZSIG = ZTEXT + "".join(["%s 300 IN RRSIG %s\n" % (o, SIGTXT % (c, 1)) for o, c in (("www", "A"), ("www", "TXT"), ("sig", "A"))])
+SIG_OWN = [dns.name.from_text("www", None), dns.name.from_text("sig", None), dns.name.from_text("new", None)]
+SIG_COVERS = [A, TXT, MX]
+# record pool: (covers, key tag)
+SIG_POOL = [(0, 1), (0, 2), (1, 1), (2, 1)]
+S_DEL_TYPE, S_DELX_TYPE, S_DEL_RD, S_DELX_RD, S_ADD, S_REPLACE, S_DEL_A = range(7)
+
+
+def h10f(op1: int, o1: int, c1: int, r1: int, op2: int, o2: int, c2: int, r2: int, ab: bool) -> bool:
+    """Rdatasets are keyed by (type, covers): adding / replacing / deleting RRSIG rdatasets by covered type or by record, in every zone class, equals the model; a node whose last rdataset goes away disappears."""
+    kind, relativize = S("zone"), S("relativize")
+    with concrete():
+        z = dns.zone.from_text(ZSIG, origin=ORIGIN, relativize=relativize, zone_factory=ZONE_CLASSES[kind])
+        pool = [dns.rdata.from_text(IN, RRSIG, SIGTXT % (dns.rdatatype.to_text(SIG_COVERS[c]), tag), origin=ORIGIN, relativize=relativize)
+                for c, tag in SIG_POOL]
+    # model: owner -> {covers index: [ttl, [pool indices]]}; other[o] = the owner also has non-signature data
+    model = [{0: [300, [0]], 1: [300, [2]]}, {0: [300, [0]]}, {}]
+    other = [True, False, False]
+    txn = z.writer()
+    for op, o, c, r in ((op1, o1, c1, r1), (op2, o2, c2, r2)):
+        name = SIG_OWN[o].derelativize(ORIGIN) if ab else SIG_OWN[o]
+        want = None
+        m = model[o]
+        if op in (S_DEL_TYPE, S_DELX_TYPE):
+            if c in m:
+                del m[c]
+            elif op == S_DELX_TYPE:
+                want = dns.transaction.DeleteNotExact
+            try:
+                (txn.delete_exact if op == S_DELX_TYPE else txn.delete)(name, RRSIG, SIG_COVERS[c])
+                got = None
+            except dns.transaction.DeleteNotExact as e:
+                got = type(e)
+        elif op in (S_DEL_RD, S_DELX_RD):
+            cc = SIG_POOL[r][0]
+            if cc in m and r in m[cc][1]:
+                rest = [x for x in m[cc][1] if x != r]
+                if rest:
+                    m[cc] = [m[cc][0], rest]
+                else:
+                    del m[cc]
+            elif op == S_DELX_RD:
+                want = dns.transaction.DeleteNotExact
+            try:
+                (txn.delete_exact if op == S_DELX_RD else txn.delete)(name, pool[r])
+                got = None
+            except dns.transaction.DeleteNotExact as e:
+                got = type(e)
+        elif op in (S_ADD, S_REPLACE):
+            cc = SIG_POOL[r][0]
+            if op == S_ADD and cc in m:
+                m[cc] = [min(m[cc][0], 200), m[cc][1] if r in m[cc][1] else m[cc][1] + [r]]
+            else:
+                m[cc] = [200, [r]]
+            (txn.add if op == S_ADD else txn.replace)(name, 200, pool[r])
+            got = None
+        else:
+            if o == 0:
+                other[0] = False
+            txn.delete(name, A)
+            got = None
+        if got is not want:
+            return False
+        # reads inside the transaction
+        if not sig_view(lambda n, cv: txn.get(n, RRSIG, cv), txn.name_exists, model, other, pool):
+            return False
+    txn.commit()
+    hit("committed")
+
+    def zget(n, cv):
+        try:
+            return z.get_rdataset(n, RRSIG, cv)
+        except KeyError:
+            return None
+
+    def zexists(n):
+        try:
+            return z.get_node(n) is not None
+        except KeyError:
+            return False
+
+    return sig_view(zget, zexists, model, other, pool)
+
+
+def sig_view(get, exists, model, other, pool):
+    for o in range(len(SIG_OWN)):
+        name = SIG_OWN[o]
+        if exists(name) != (len(model[o]) > 0 or other[o]):
+            return False
+        for c in range(len(SIG_COVERS)):
+            rds = get(name, SIG_COVERS[c])
+            if c not in model[o]:
+                if rds is not None and len(rds) > 0:
+                    return False
+                continue
+            ttl, members = model[o][c]
+            if rds is None or rds.ttl != ttl or len(rds) != len(members):
+                return False
+            for r in members:
+                if pool[r] not in rds:
+                    return False
+    return True
+
+
+def h10f_pre(op1, o1, c1, r1, op2, o2, c2, r2, ab):
+    for op, o, c, r in ((op1, o1, c1, r1), (op2, o2, c2, r2)):
+        if not (0 <= op <= 6 and 0 <= o <= 2 and 0 <= c <= 2 and 0 <= r <= 3):
+            return False
+        if op in (S_DEL_TYPE, S_DELX_TYPE) and r != 0:
+            return False
+        if op in (S_DEL_RD, S_DELX_RD, S_ADD, S_REPLACE) and c != 0:
+            return False
+        if op == S_DEL_A and (c != 0 or r != 0):
+            return False
+    if S("tier") == "quick" and ab and op1 >= S_DEL_RD:
+        return False  # quick: the absolute spelling only with the delete-by-type forms
+    return op1 == S("op1")
+
+
+def h10f_shards(tier):
+    # (quick: versioned zones share WritableVersion with plain zones and are left to the thorough tier)
+    return [{"zone": kind, "relativize": rel, "op1": op1, "tier": tier, "_timeout": 900, "_path_timeout": 60}
+            for kind in (("plain", "btree") if tier == "quick" else ("plain", "versioned", "btree"))
+            for rel in ((True,) if tier == "quick" else (True, False)) for op1 in range(7)]
+
+
 # ---------------------------------------------------------------- H10b atomicity: rollback / exception leave the zone untouched
 
 class Boom(Exception):
@@ -674,6 +805,12 @@ HARNESSES = [
             encodes=ENC + ["dns.btreezone.WritableVersion.update_glue_flag"],
             bound="zone with sub (TXT) and host.sub (A), optionally sub NS committed before; 2 symbolic operations (add/replace/delete type/delete rdata/delete name/delete_exact rdata) over {sub, host.sub} x {NS, A1, A2, TXT}, TTL symbolic; btree (all first operations), plain/versioned (2 first operations quick)",
             stubs=["E6"], outside="deeper delegation nesting (C20)"),
+    Harness("H10f", h10f, h10f_pre, h10f_shards, kind="finite selection of operations, exhaustive over pairs",
+            encodes=["dns.transaction.Transaction._delete", "dns.transaction.Transaction._add", "dns.zone.WritableVersion.delete_rdataset",
+                     "dns.zone.WritableVersion.put_rdataset", "dns.node.Node.delete_rdataset", "dns.node.Node.find_rdataset",
+                     "dns.btreezone.WritableVersion.delete_rdataset"],
+            bound="2 operations in one transaction out of {delete / delete_exact by (RRSIG, covers), delete / delete_exact of one RRSIG record, add, replace, delete of the A rdataset} over 3 owners (signatures beside other data, a node holding only a signature rdataset, a new name), 3 covered types, 4 signature records; relative / absolute spelling",
+            stubs=["E5", "E6"], outside="SIG; more than two covered types per node"),
     Harness("H10b", h10b, h10b_pre, h10b_shards, kind="finite selection",
             encodes=["dns.transaction.Transaction.__exit__", "dns.transaction.Transaction._end", "dns.zone.Transaction._end_transaction",
                      "dns.versioned.Zone._end_write", "dns.zone.Zone._end_write"],
